@@ -8,7 +8,7 @@ import copy
 import keyword
 import pickle
 import re
-from dataclasses import dataclass
+from dataclasses import dataclass, field
 from typing import Any, Dict, List, Optional, Tuple
 
 from ..core.evlog import EventLog, exc_sig
@@ -64,6 +64,9 @@ SYS_OPS: List[List[Any]] = [
 class Item:
     short_name: str
     tag: int = 0
+    # back reference to the list the item was put into (as library elements have: a table row knows its table,
+    # which owns the list of its rows); not part of the item's value
+    owner: Any = field(default=None, compare=False, repr=False)
 
 
 class Nameless:
@@ -152,7 +155,7 @@ def gen(rs: int, index: int, tier: str) -> Dict[str, Any]:
     w = {k: r.choice([0, 1, 1, 2, 4]) for k in
          ["append", "insert", "extend", "remove", "pop", "clear", "copy", "copycopy", "deepcopy", "pickle",
           "construct", "remove_absent", "pop_bad", "append_nameless", "extend_raise", "insert_nameless",
-          "inspect"]}
+          "inspect", "insert_badindex", "item_copy"]}
     w["append"] = max(w["append"], 2)
     kinds = [k for k in w if w[k] > 0]
     ops: List[List[Any]] = []
@@ -191,6 +194,10 @@ def gen(rs: int, index: int, tier: str) -> Dict[str, Any]:
             ops.append([li, "extend_raise", [r.choice(alpha) for _ in range(r.randint(0, 3))]])
         elif k == "inspect":
             ops.append([li, "inspect"])
+        elif k == "insert_badindex":
+            ops.append([li, "insert_badindex", r.choice(["huge", "-huge", "str", "none", "float"]), r.choice(alpha)])
+        elif k == "item_copy":
+            ops.append([li, "item_copy", r.choice(["deepcopy", "pickle"]), r.randint(0, 9)])
     # now and then: copy / deep-copy / pickle of the name lists of a real database and of single items of them
     rr = S.rng("real")
     if rr.random() < 0.03:
@@ -198,7 +205,7 @@ def gen(rs: int, index: int, tier: str) -> Dict[str, Any]:
             ops.insert(rr.randint(0, len(ops)), [0, "real", rr.randint(0, 10**6),
                                                  rr.choice(["pickle_list", "deepcopy_list", "pickle_item", "deepcopy_item",
                                                             "copy_list", "pickle_list", "pickle_item"])])
-    return {"ops": ops, "systematic": False}
+    return {"ops": ops, "systematic": False, "backref": S.rng("backref").random() < 0.35}
 
 
 # ------------------------------------------------------------------ oracle
@@ -308,10 +315,16 @@ def execute(trace: Dict[str, Any]) -> Dict[str, Any]:
     had_removal_or_copy = False
     ctr = [0]
 
+    backref = bool(trace.get("backref"))
+    cur_list: List[Any] = [None]
+
     def mk(ai: int) -> Item:
         sn, tag = ALPHABET[ai % len(ALPHABET)]
         ctr[0] += 1
-        return Item(sn, tag)
+        it = Item(sn, tag)
+        if backref:
+            it.owner = cur_list[0]
+        return it
 
     def snapshot() -> None:
         for nil, model in zip(lists, models):
@@ -326,6 +339,7 @@ def execute(trace: Dict[str, Any]) -> Dict[str, Any]:
         for step, op in enumerate(trace["ops"]):
             li = op[0] % len(lists)
             nil, model = lists[li], models[li]
+            cur_list[0] = nil
             kind = op[1]
             counters["op_" + kind] = counters.get("op_" + kind, 0) + 1
             outcome: Any = "ok"
@@ -452,6 +466,24 @@ def execute(trace: Dict[str, Any]) -> Dict[str, Any]:
                     new = NIL(src)
                     lists.append(new)
                     models.append(list(its))
+                elif kind == "insert_badindex":
+                    # an index that list.insert() itself rejects: the call fails and must leave nothing behind
+                    faults["insert_rejected_index"] = faults.get("insert_rejected_index", 0) + 1
+                    bad: Any = {"huge": 2**70, "-huge": -2**70, "str": "0", "none": None, "float": 1.5}[op[2]]
+                    try:
+                        nil.insert(bad, mk(op[3]))
+                        raise Violation("failing-op-succeeded", {"op": kind, "index": op[2]})
+                    except Violation:
+                        raise
+                    except Exception as e:  # noqa: BLE001
+                        outcome = type(e).__name__
+                elif kind == "item_copy":
+                    if model:
+                        it0 = model[op[3] % len(model)]
+                        it1 = copy.deepcopy(it0) if op[2] == "deepcopy" else pickle.loads(pickle.dumps(it0))
+                        if it1 != it0 or it1 is it0:
+                            raise Violation("item-copy-differs", {"how": op[2]})
+                        probes["item_copied_" + op[2]] = probes.get("item_copied_" + op[2], 0) + 1
                 elif kind == "real":
                     src = REAL_LISTS[op[2] % len(REAL_LISTS)]
                     how = op[3]
@@ -590,7 +622,7 @@ def simpler_op(op: List[Any]) -> List[List[Any]]:
 
 def shrink(trace: Dict[str, Any], still_fails) -> Dict[str, Any]:
     budget = ShrinkBudget(4000)
-    ops = ddmin_list(trace["ops"], lambda o: still_fails({"ops": o}), budget)
-    ops = shrink_each(ops, simpler_op, lambda o: still_fails({"ops": o}), budget)
-    ops = ddmin_list(ops, lambda o: still_fails({"ops": o}), budget)
-    return {"ops": ops, "systematic": False}
+    ops = ddmin_list(trace["ops"], lambda o: still_fails({**trace, "ops": o}), budget)
+    ops = shrink_each(ops, simpler_op, lambda o: still_fails({**trace, "ops": o}), budget)
+    ops = ddmin_list(ops, lambda o: still_fails({**trace, "ops": o}), budget)
+    return {**trace, "ops": ops, "systematic": False}
